@@ -466,6 +466,19 @@ fn do_resolve<Fd: AsFd, P: AsRef<Path>>(
     // MSRV(1.69): Remove &*.
     check_current(&*current, &*root, &expected_path).wrap("check final handle didn't escape")?;
 
+    // If we ended up at the root itself, do not hand out a duplicate of the
+    // caller's root descriptor (which shares its open file description and has
+    // whatever flags the caller opened it with): like openat2(2), return a
+    // fresh O_PATH handle.
+    if Rc::ptr_eq(&current, &root) {
+        current = syscalls::openat(&*root, ".", OpenFlags::O_PATH | OpenFlags::O_NOFOLLOW, 0)
+            .map_err(|err| ErrorImpl::RawOsError {
+                operation: "re-open root as the result of the resolution".into(),
+                source: err,
+            })?
+            .into();
+    }
+
     // We finished the lookup with no remaining components.
     Ok(PartialLookup::Complete(current))
 }
